@@ -18,13 +18,14 @@ for M in m1 m2; do
   SAME=$(diff -q ${SEEDROOT:-/tmp/seed_out}/$PID/base_suite.txt $D/mut_suite.txt >/dev/null && echo true || echo false)
   cp $D/demo.rs $LOC
   PKG=$(echo $LOC | cut -d/ -f1); T=$(basename $LOC .rs)
-  if [ "$PID" = "C18" ] && [ "$M" = "m2" ]; then
+  USE_MIRI=$(python3 -c "import json;m=json.load(open('$D/meta.json'));print('yes' if 'miri' in json.dumps(m.get('demo_command') or m.get('ran') or '') else 'no')")
+  if [ "$USE_MIRI" = "yes" ]; then
     MIRIFLAGS="-Zmiri-many-seeds=0..4" timeout 900 cargo +nightly miri test -p $PKG --test $T --offline > $D/demo_mut.log 2>&1; RM=$?
   else
     timeout 600 cargo test -p $PKG --test $T --offline > $D/demo_mut.log 2>&1; RM=$?
   fi
   git checkout -q -- . ; 
-  if [ "$PID" = "C18" ] && [ "$M" = "m2" ]; then
+  if [ "$USE_MIRI" = "yes" ]; then
     MIRIFLAGS="-Zmiri-many-seeds=0..4" timeout 900 cargo +nightly miri test -p $PKG --test $T --offline > $D/demo_clean.log 2>&1; RC=$?
   else
     timeout 600 cargo test -p $PKG --test $T --offline > $D/demo_clean.log 2>&1; RC=$?
